@@ -114,7 +114,10 @@ class ElementNode(XmlNode):
             params: dict = {}
             self.bind_attrs(params)
             self.bind_content(params, text, tail, objects)
-            obj = self.config.class_factory(self.meta.clazz, params)
+            try:
+                obj = self.config.class_factory(self.meta.clazz, params)
+            except TypeError as e:
+                raise ParserError(e)
 
         if self.derived_factory:
             obj = self.derived_factory(qname=qname, value=obj, type=self.xsi_type)
